@@ -3,6 +3,7 @@
 package main
 
 import (
+	"sync/atomic"
 	"crypto/hmac"
 	"crypto/sha256"
 	"encoding/pem"
@@ -108,6 +109,7 @@ type testEnv struct {
 	rec           *recorder
 	emitCookieOps bool              // emit a `mkcookie` model comparison for every Set-Cookie (suite cookieattrs)
 	redisFault    map[string]string // upper-case command → "before" | "after" (one shot)
+	redisOutage   atomic.Bool       // while set EVERY Redis command is answered with an error (restart / LOADING / network outage)
 }
 
 func (e *testEnv) close() {
@@ -294,6 +296,10 @@ func newEnv(c *suiteCtx, cfg proxyCfg) (*testEnv, error) {
 		}
 		e.mr = mr
 		mr.Server().SetPreHook(func(p *server.Peer, cmd string, args ...string) bool {
+			if e.redisOutage.Load() {
+				p.WriteError("LOADING Redis is loading the dataset in memory")
+				return true
+			}
 			kind, ok := e.redisFault[strings.ToUpper(cmd)]
 			if !ok {
 				return false
